@@ -26,6 +26,10 @@ def run(c: Check):
     try:
         out2, o2 = c.go_harness("internal/dnssvc", "^TestVerifC07Stack$", files=["c07_test.go"], race=True,
                                 env={"VERIF_PER": 400 if th else 120, "VERIF_ROUNDS": 4 if th else 2}, timeout=2400)
+        # the same with the plain cache of the default configuration instead of the ECS-aware one
+        out2b, _ = c.go_harness("internal/dnssvc", "^TestVerifC07Stack$", files=["c07_test.go"], race=True,
+                                env={"VERIF_PER": 300 if th else 100, "VERIF_ROUNDS": 3 if th else 2, "VERIF_CACHE": "simple"},
+                                timeout=2400)
     except Undecided as e:
         msg = str(e)
         i = msg.find("WARNING: DATA RACE")
@@ -55,7 +59,7 @@ def run(c: Check):
             os.environ.get("VERIF_REPO", "/repo"), "")},
                     "C07 data race between concurrent requests (race detector):\n" + block[:2500], {"report": block})
         return
-    ev2 = read_ndjson(out2)
+    ev2 = read_ndjson(out2) + read_ndjson(out2b)
     fails2 = c.validate_segments("TraceMsgPool", "TraceMsgPool.cfg", ev2, is_reset=lambda e: True, max_fail=8, timeout=1800)
     for sg, idx, reason in fails2:
         e = sg[idx]
